@@ -82,12 +82,14 @@ fn main() {
                 let elem = h.get(4).map_or("tr", |s| s.as_str());
                 let threads: usize = h.get(5).map_or(0, |s| s.parse().unwrap());
                 let delay: i64 = h.get(6).map_or(0, |s| s.parse().unwrap());
-                let tpool = if threads > 0 {
-                    Some(rayon::ThreadPoolBuilder::new().num_threads(threads).build().unwrap())
-                } else {
-                    None
+                #[cfg(feature = "parallel")]
+                let ctx = Ctx {
+                    threads,
+                    delay,
+                    tpool: if threads > 0 { Some(rayon::ThreadPoolBuilder::new().num_threads(threads).build().unwrap()) } else { None },
                 };
-                let ctx = Ctx { threads, delay, tpool };
+                #[cfg(not(feature = "parallel"))]
+                let ctx = Ctx { threads, delay };
                 writeln!(w, "B {id}").unwrap();
                 match elem {
                     "tr" => run_history::<Tr>(id, &ops, &ctx, &mut w),
